@@ -92,14 +92,14 @@ theorem read_defer_is_source (p : Pool) (f : Nat) (o : ObjId) (n : Name) (d : De
   unfold Deleg.read
   simp only [hdict, hd]
   cases hx : (p.obj o).deleg with
-  | none => simp [execGet, getattrDelegate, GetCtx.exec, GetCtx.cond, setReg, hx, CErr.exc]
+  | none => simp [execGet, getattrDelegate, GetCtx.exec, GetCtx.cond, totalName, setReg, hx, CErr.exc]
   | some x =>
     cases hr : read p f x (attrName d (p.obj o).cls.pfx n) <;>
-      simp [execGet, getattrDelegate, GetCtx.exec, GetCtx.cond, setReg, hx, hr, CErr.exc]
+      simp [execGet, getattrDelegate, GetCtx.exec, GetCtx.cond, totalName, setReg, hx, hr, CErr.exc]
 
 theorem read_limit_is_source (p : Pool) (o x : ObjId) (n : Name) (d : DelegInfo) (hx : (p.obj o).deleg = some x) :
     execGet getattrDelegate p none o n d = .error .runtimeError := by
-  simp [execGet, getattrDelegate, GetCtx.exec, GetCtx.cond, setReg, hx, CErr.exc]
+  simp [execGet, getattrDelegate, GetCtx.exec, GetCtx.cond, totalName, setReg, hx, CErr.exc]
 
 /-- What `setattr_delegate` does once the chain walk has reached a non-deferring trait. -/
 def terminal (E : Env) (k : Nat) (p : Pool) (o : ObjId) (n : Name) (d0 : DelegInfo) (v : Option Val)
@@ -126,37 +126,37 @@ def bodyResult (E : Env) (k : Nat) (p : Pool) (o : ObjId) (n : Name) (d0 : Deleg
 
 theorem body_eq (E : Env) (k : Nat) (p : Pool) (o : ObjId) (n : Name) (d0 : DelegInfo) (v : Option Val)
     (i : Nat) (cur : ObjId) (d : DelegInfo) (da : Name) (o2 : OVal) (s2 : Name) :
-    (SetCtx.mk E k p d0 v).exec loopBody
+    (SetCtx.mk E k p d0 v totalName).exec loopBody
         { O := [.obj o, .obj cur, o2], S := [n, da, s2], T := [.defer d0, .defer d], i := i, result := none }
       = bodyResult E k p o n d0 v i cur d da := by
   unfold bodyResult
   cases hx : (p.obj cur).deleg with
-  | none => simp [loopBody, setattrDelegate, SetCtx.exec, SetCtx.cond, setReg, hx, CErr.exc]
+  | none => simp [loopBody, setattrDelegate, SetCtx.exec, SetCtx.cond, totalName, setReg, hx, CErr.exc]
   | some x =>
     cases htd : (p.obj x).cls.trait (attrName d (p.obj o).cls.pfx da) with
     | defer d' =>
       by_cases hi : i + 1 ≥ 100 <;>
-        simp [loopBody, setattrDelegate, SetCtx.exec, SetCtx.cond, setReg, hx, htd, CErr.exc, hi]
+        simp [loopBody, setattrDelegate, SetCtx.exec, SetCtx.cond, totalName, setReg, hx, htd, CErr.exc, hi]
       all_goals omega
     | plain vid dflt cmp =>
       cases hm : d0.modify
       · cases h1 : isOk (protoSet E k p o n (TraitDef.plain vid dflt cmp) v)
-        · simp [loopBody, setattrDelegate, SetCtx.exec, SetCtx.cond, setReg, hx, htd, CErr.exc, terminal, hm, h1]
+        · simp [loopBody, setattrDelegate, SetCtx.exec, SetCtx.cond, totalName, setReg, hx, htd, CErr.exc, terminal, hm, h1]
         · cases h2 : isOk (removeListenerCall (protoSet E k p o n (TraitDef.plain vid dflt cmp) v) o n d0 v.isSome) <;>
-            simp [loopBody, setattrDelegate, SetCtx.exec, SetCtx.cond, setReg, hx, htd, CErr.exc, terminal, hm, h1, h2]
-      · simp [loopBody, setattrDelegate, SetCtx.exec, SetCtx.cond, setReg, hx, htd, CErr.exc, terminal, hm]
+            simp [loopBody, setattrDelegate, SetCtx.exec, SetCtx.cond, totalName, setReg, hx, htd, CErr.exc, terminal, hm, h1, h2]
+      · simp [loopBody, setattrDelegate, SetCtx.exec, SetCtx.cond, totalName, setReg, hx, htd, CErr.exc, terminal, hm]
     | python =>
       cases hm : d0.modify
       · cases h1 : isOk (protoSet E k p o n TraitDef.python v)
-        · simp [loopBody, setattrDelegate, SetCtx.exec, SetCtx.cond, setReg, hx, htd, CErr.exc, terminal, hm, h1]
+        · simp [loopBody, setattrDelegate, SetCtx.exec, SetCtx.cond, totalName, setReg, hx, htd, CErr.exc, terminal, hm, h1]
         · cases h2 : isOk (removeListenerCall (protoSet E k p o n TraitDef.python v) o n d0 v.isSome) <;>
-            simp [loopBody, setattrDelegate, SetCtx.exec, SetCtx.cond, setReg, hx, htd, CErr.exc, terminal, hm, h1, h2]
-      · simp [loopBody, setattrDelegate, SetCtx.exec, SetCtx.cond, setReg, hx, htd, CErr.exc, terminal, hm]
+            simp [loopBody, setattrDelegate, SetCtx.exec, SetCtx.cond, totalName, setReg, hx, htd, CErr.exc, terminal, hm, h1, h2]
+      · simp [loopBody, setattrDelegate, SetCtx.exec, SetCtx.cond, totalName, setReg, hx, htd, CErr.exc, terminal, hm]
 
 theorem loop_eq (E : Env) (k : Nat) (p : Pool) (o : ObjId) (n : Name) (d0 : DelegInfo) (v : Option Val) :
     ∀ (f g i : Nat) (cur : ObjId) (d : DelegInfo) (da : Name) (o2 : OVal) (s2 : Name),
       i + f + 1 = 100 → f ≤ g →
-      (SetCtx.mk E k p d0 v).loop loopBody (g + 1)
+      (SetCtx.mk E k p d0 v totalName).loop loopBody (g + 1)
           { O := [.obj o, .obj cur, o2], S := [n, da, s2], T := [.defer d0, .defer d], i := i, result := none }
         = .ret (match walk p (p.obj o).cls.pfx (f + 1) cur d da with
                 | .error e => fail p e
@@ -218,5 +218,193 @@ theorem setDefer_is_source (E : Env) (k : Nat) (p : Pool) (o : ObjId) (n : Name)
   have hl := loop_eq E k p o n d v 99 999 0 o d n .null [] (by omega) (by omega)
   simp only [loopBody, setattrDelegate, Option.getD] at hl
   simp [execSet, setattrDelegate, SetCtx.exec, setReg, loopFuel, hl]
+
+theorem setDefer_set_fail_or_ok (E : Env) (k : Nat) (p : Pool) (o : ObjId) (n : Name) (d : DelegInfo) (v : Val) :
+    (∃ e', setDefer E k p o n d (some v) = fail p e') ∨ isOk (setDefer E k p o n d (some v)) = true := by
+  unfold setDefer
+  split
+  · exact .inl ⟨_, rfl⟩
+  · split
+    · split <;> (try simp_all) <;> (try (simp only [setPlain]; split)) <;> simp [isOk, fail, setPython]
+    · split <;> (try simp_all) <;> (try split) <;> (try split) <;> simp [isOk, fail]
+
+/-- An assignment through a deferring attribute that raises has done nothing. -/
+theorem setDefer_error_no_effect (E : Env) (k : Nat) (p : Pool) (o : ObjId) (n : Name) (d : DelegInfo) (v : Val)
+    (e : Exc) (h : (setDefer E k p o n d (some v)).res = .error e) :
+    setDefer E k p o n d (some v) = fail p e := by
+  rcases setDefer_set_fail_or_ok E k p o n d v with ⟨e', he⟩ | hok
+  · rw [he] at h ⊢
+    simp only [fail, Except.error.injEq] at h
+    rw [h]
+  · simp [isOk, h] at hok
+
+
+theorem afterLastColon_append (h t : Name) (ht : ':' ∉ t) : afterLastColon (h ++ ':' :: t) = t := by
+  unfold afterLastColon
+  have h1 : (h ++ ':' :: t).reverse = t.reverse ++ (':' :: h.reverse) := by simp
+  rw [h1, List.takeWhile_append_of_pos, List.takeWhile_cons_of_neg (by simp), List.append_nil, List.reverse_reverse]
+  intro c hc
+  have : c ∈ t := by simpa using hc
+  simp only [ne_eq, decide_not, Bool.not_eq_eq_eq_not, Bool.not_true, decide_eq_false_iff_not]
+  intro hcc; subst hcc; exact ht this
+
+/-- `_init_trait_delegate_listener(name, 0, head ++ ':' ++ pat)`: the listener is registered under the
+name `_trait_delegate_name` returns, stored under `name`, and a change of the listened attribute of the
+delegate is reported as a change of `name`. -/
+theorem initListener_is_source (clsPfx : Option Name) (n head pat : Name) (hp : pat ≠ [])
+    (hc : ':' ∉ Deleg.traitDelegateName clsPfx n pat) :
+    let out := initListenerSrc initListener
+      (fun a b => (traitDelegateNameSrc Generated.DelegSrc.traitDelegateName clsPfx a b).getD [])
+      clsPfx n (head ++ ':' :: pat)
+    out.registered = head ++ ':' :: Deleg.traitDelegateName clsPfx n pat
+    ∧ out.key = n
+    ∧ out.reported (Deleg.traitDelegateName clsPfx n pat) = n := by
+  have htdn := traitDelegateName_is_source clsPfx n (head ++ [':']) pat hp
+  simp only [List.append_assoc, List.cons_append, List.nil_append] at htdn
+  simp [initListenerSrc, initListener, PCtx.exec, PCtx.eval, setReg, PVal.toStr, PVal.toNat, htdn,
+    afterLastColon_append _ _ hc]
+
+/-! ### `_has_traits_trait` (`base_trait`) -/
+
+def baseBody : Stmt := (hasTraitsTrait.loop).getD .skip
+
+def isBrkRaised : Outcome BaseSt (Option TraitDef) → Bool
+  | .brk st => st.raised
+  | _ => false
+
+theorem base_body_nondefer (p : Pool) (o cur : ObjId) (n da s2 : Name) (o2 : OVal) (i : Nat) (td : TraitDef)
+    (h : ∀ d, td ≠ .defer d) :
+    (BaseCtx.mk p (-2) totalName).exec baseBody { O := [.obj o, .obj cur, o2], S := [n, da, s2], T := [some td], i := i }
+      = .ret (some td) := by
+  cases td with
+  | defer d => exact absurd rfl (h d)
+  | plain a b c => simp [baseBody, hasTraitsTrait, BaseCtx.exec, BaseCtx.cond, totalName, setReg]
+  | python => simp [baseBody, hasTraitsTrait, BaseCtx.exec, BaseCtx.cond, totalName, setReg]
+
+theorem base_body_defer (p : Pool) (o cur : ObjId) (n da s2 : Name) (o2 : OVal) (i : Nat) (d : DelegInfo) :
+    let out := (BaseCtx.mk p (-2) totalName).exec baseBody
+      { O := [.obj o, .obj cur, o2], S := [n, da, s2], T := [some (.defer d)], i := i }
+    match (p.obj cur).deleg with
+    | none => isBrkRaised out = true
+    | some x =>
+      let da' := attrName d (p.obj o).cls.pfx da
+      if i + 1 ≥ 100 then isBrkRaised out = true
+      else out = .next { O := [.obj o, .obj x, .obj x], S := [n, da', da'], T := [some ((p.obj x).cls.trait da')], i := i + 1 } := by
+  intro out
+  cases hx : (p.obj cur).deleg with
+  | none => simp [out, baseBody, hasTraitsTrait, BaseCtx.exec, BaseCtx.cond, totalName, setReg, hx, isBrkRaised]
+  | some x =>
+    by_cases hi : i + 1 ≥ 100 <;>
+      simp [out, baseBody, hasTraitsTrait, BaseCtx.exec, BaseCtx.cond, totalName, setReg, hx, isBrkRaised, hi]
+    all_goals omega
+
+theorem base_loop (p : Pool) (o : ObjId) (n : Name) :
+    ∀ (f g i : Nat) (cur : ObjId) (td : TraitDef) (da : Name) (o2 : OVal) (s2 : Name),
+      i + f = 99 → f ≤ g →
+      let out := (BaseCtx.mk p (-2) totalName).loop baseBody (g + 1)
+          { O := [.obj o, .obj cur, o2], S := [n, da, s2], T := [some td], i := i }
+      if baseOk p (p.obj o).cls.pfx f cur td da then (∃ r, out = .ret (some r)) else isBrkRaised out = true := by
+  intro f
+  induction f with
+  | zero =>
+    intro g i cur td da o2 s2 hi hg out
+    cases td with
+    | plain a b c =>
+      simp only [baseOk, if_true]
+      exact ⟨_, by simp only [out, BaseCtx.loop]; rw [base_body_nondefer _ _ _ _ _ _ _ _ _ (by intro d; simp)]⟩
+    | python =>
+      simp only [baseOk, if_true]
+      exact ⟨_, by simp only [out, BaseCtx.loop]; rw [base_body_nondefer _ _ _ _ _ _ _ _ _ (by intro d; simp)]⟩
+    | defer d =>
+      simp only [baseOk, Bool.false_eq_true, if_false]
+      have hb := base_body_defer p o cur n da s2 o2 i d
+      simp only [out, BaseCtx.loop]
+      cases hx : (p.obj cur).deleg with
+      | none =>
+        simp only [hx] at hb
+        revert hb
+        generalize (BaseCtx.mk p (-2) totalName).exec baseBody _ = r
+        intro hb
+        cases r <;> simp_all [isBrkRaised]
+      | some x =>
+        have h100 : i + 1 ≥ 100 := by omega
+        simp only [hx, h100, if_true] at hb
+        revert hb
+        generalize (BaseCtx.mk p (-2) totalName).exec baseBody _ = r
+        intro hb
+        cases r <;> simp_all [isBrkRaised]
+  | succ f ih =>
+    intro g i cur td da o2 s2 hi hg out
+    cases td with
+    | plain a b c =>
+      simp only [baseOk, if_true]
+      exact ⟨_, by simp only [out, BaseCtx.loop]; rw [base_body_nondefer _ _ _ _ _ _ _ _ _ (by intro d; simp)]⟩
+    | python =>
+      simp only [baseOk, if_true]
+      exact ⟨_, by simp only [out, BaseCtx.loop]; rw [base_body_nondefer _ _ _ _ _ _ _ _ _ (by intro d; simp)]⟩
+    | defer d =>
+      have hb := base_body_defer p o cur n da s2 o2 i d
+      simp only [out, BaseCtx.loop, baseOk]
+      cases hx : (p.obj cur).deleg with
+      | none =>
+        simp only [hx] at hb
+        simp only [Bool.false_eq_true, if_false]
+        revert hb
+        generalize (BaseCtx.mk p (-2) totalName).exec baseBody _ = r
+        intro hb
+        cases r <;> simp_all [isBrkRaised]
+      | some x =>
+        have h100 : ¬ (i + 1 ≥ 100) := by omega
+        simp only [hx, h100, if_false] at hb
+        rw [hb]
+        obtain ⟨g', rfl⟩ : ∃ g', g = g' + 1 := ⟨g - 1, by omega⟩
+        exact ih g' (i + 1) x _ _ _ _ (by omega) (by omega)
+
+/-- `obj.base_trait(name)` resolves exactly when the model's `hookOk` says so. -/
+theorem hookOk_is_source (p : Pool) (x : ObjId) (t : Name) :
+    (execBase hasTraitsTrait p x t).isSome = hookOk p x t := by
+  have hl := base_loop p x t 99 999 0 x ((p.obj x).cls.trait t) t .null [] (by omega) (by omega)
+  simp only [baseBody, hasTraitsTrait, Option.getD] at hl
+  unfold hookOk
+  cases hb : baseOk p (p.obj x).cls.pfx 99 x ((p.obj x).cls.trait t) t
+  · simp only [hb, Bool.false_eq_true, if_false] at hl
+    revert hl
+    simp only [execBase, hasTraitsTrait, BaseCtx.exec, BaseCtx.cond, totalName, setReg, loopFuel]
+    simp
+    generalize (BaseCtx.mk p (-2) totalName).loop _ _ _ = r
+    intro hl
+    cases r <;> simp_all [isBrkRaised, BaseCtx.exec]
+  · simp only [hb, if_true] at hl
+    obtain ⟨r, hr⟩ := hl
+    simp [execBase, hasTraitsTrait, BaseCtx.exec, BaseCtx.cond, totalName, setReg, loopFuel, hr]
+
+/-! ### the name computation fails -/
+
+/-- `getattr_delegate` when the name computation fails: the failure is the result (no dereference). -/
+theorem read_name_failure (p : Pool) (recur : Option (ObjId → Name → Except Exc Val)) (o : ObjId) (n : Name)
+    (d : DelegInfo) (e : Exc) :
+    execGet getattrDelegate p recur o n d (fun _ _ _ => .error e) = .error e := by
+  cases hx : (p.obj o).deleg <;>
+    simp [execGet, getattrDelegate, GetCtx.exec, GetCtx.cond, setReg, hx, CErr.exc]
+
+/-- `setattr_delegate` when the name computation fails at the first level: nothing is changed, the failure
+is raised (a delegate that is None is reported first). -/
+theorem write_name_failure (E : Env) (k : Nat) (p : Pool) (o : ObjId) (n : Name) (d : DelegInfo) (v : Option Val)
+    (e : Exc) :
+    execSet setattrDelegate E k p o n d v (fun _ _ _ => .error e)
+      = match (p.obj o).deleg with
+        | none => fail p .traitError
+        | some _ => fail p e := by
+  cases hx : (p.obj o).deleg <;>
+    simp [execSet, setattrDelegate, SetCtx.exec, SetCtx.cond, SetCtx.loop, setReg, loopFuel, hx, CErr.exc]
+
+/-- `base_trait` when the name computation fails (fix 4e38e77 of finding F111): on a deferring attribute
+the call raises (returns NULL with the exception set) and is free of undefined behaviour. -/
+theorem base_name_failure (p : Pool) (o : ObjId) (n : Name) (d : DelegInfo) (e : Exc)
+    (hd : (p.obj o).cls.trait n = .defer d) :
+    execBase hasTraitsTrait p o n (fun _ _ _ => .error e) = none
+    ∧ execBaseDefined hasTraitsTrait p o n (fun _ _ _ => .error e) = true := by
+  cases hx : (p.obj o).deleg <;>
+    simp [execBase, execBaseDefined, hasTraitsTrait, BaseCtx.exec, BaseCtx.cond, BaseCtx.loop, setReg, loopFuel, hx, hd]
 
 end TraitsVerif.Model.DelegSrc
